@@ -60,7 +60,7 @@ func runC18(r *Run) {
 	r.rule("C18.R5", "exporters do not filter: inside the iterations of ExportGenesis / GetAll* / All* every element is appended (grouping flushes and decoding successes aside)", 10)
 	r.rule("C18.R6", "genesis validation admits every state the live code can write: same-block opt-in/opt-out heights; a record completing at the import height (C03.R4 class)", 2)
 	r.rule("C18.R7", "the importer is the inverse of the exporter: every exported element is stored under a key taken from the element; an address exported as text is read back with the decoder of the same kind", 8)
-	r.rule("C18.R8", "genesis code agrees with live code: exporter/importer agree on joined genesis keys; a full validator set passes dogfood's validation; an empty staker list (kept by the live code) passes delegation's validation; exporters over the raw module store do not export absolute keys; an operator value record may precede its AVS value record", 6)
+	r.rule("C18.R8", "genesis code agrees with live code: exporter/importer agree on joined genesis keys; a full validator set passes dogfood's validation; an empty staker list (kept by the live code) passes delegation's validation; exporters over the raw module store do not export absolute keys; an operator value record may precede its AVS value record; recorded slash amounts of zero pass validation", 7)
 	c18Agreements(r)
 	c18ImportInverse(r)
 	iteratorVisitsAllRule(r, "C18.R5", map[string]bool{"x/avs/keeper.Keeper.IterateAVSInfo": true, "x/avs/keeper.Keeper.IterateTaskAVSInfo": true, "x/avs/keeper.Keeper.IterateResultInfo": true, "x/assets/keeper.Keeper.IterateAllClientChains": true, "x/epochs/keeper.Keeper.IterateEpochInfos": true})
